@@ -1434,6 +1434,26 @@ fn check(led: &Led, max_response_size: Option<u16>, junk: &[Vec<u8>]) {
                 return;
             }
         }
+        // Whatever cuts a transaction short (the connection going away)
+        // loses its tail: what did arrive is responses 0, 1, 2, ... without a
+        // gap. A response missing in front of later ones was dropped on its
+        // way through the server - inside a transaction responses wait for
+        // room in the queue, they are not discarded.
+        if !s.udp && s.ask.m > 1 && !s.short && s.ask.e == 0 && got > 0 && got < want {
+            let mut idxs = Vec::new();
+            for b in &per_req[&i] {
+                if let Some(v) = dns::view(b) {
+                    if let Some(r) = v.recs.iter().find(|r| r.rtype == Rtype::TXT).and_then(|r| r.rdata.trim_matches('"').split(':').next().map(|t| t.to_string())).and_then(|t| t.split('r').nth(1).and_then(|x| x.split('i').next()).and_then(|x| x.parse::<u32>().ok())) {
+                        idxs.push(r);
+                    }
+                }
+            }
+            if s.ask.n > 0 && idxs.len() as u32 == got && idxs.iter().enumerate().any(|(pos, r)| *r != pos as u32) {
+                if sim::violation(P, "exactly-once", "transaction-response-dropped-ahead-of-later-ones", format!("request k={} ({:?}): of its {} responses those numbered {:?} arrived: one is missing in front of later ones", s.ask.k, s.ask, want, idxs)) {
+                    return;
+                }
+            }
+        }
         // Transaction order on streams.
         if !s.udp && want > 1 && got == want {
             let mut order = Vec::new();
